@@ -14,6 +14,10 @@ BUILT = {
          "Exhaustive TLC model check of the transfer protocol design (protocols 1..4, both directions, refusal, several file sets, pipelined window) for Fidelity, NoSilentCorruption, NoFalseSuccess, CleanRunSucceeds and Termination; bound to the code by validating hundreds (quick) to thousands (thorough) of real fault-free transfers between the real client path and the real trz/tsz role bodies over a seeded re-chunking wire across the configuration matrix: Transfer's own property formulas are evaluated on the observed outcome, and every protocol line written must be a send the spec allows in that state with the logged value.",
          "Trusts TLC, the harness wire/parser/recorder and SHA-256; in-process roles (the process-level binaries, tunnel, fork and relay hops are covered under C14/C17 or listed as not covered in DESIGN.md); model bounds: <=3 entries, <=3 units per file, window 2.",
          "2/C01", "transfer"),
+ "C02": ("TLA+ spec Transfer.tla with channel fault actions checked exhaustively by TLC; real transfers with byte-level faults at every message validated against TransferObs.tla",
+         "Exhaustive TLC model check: for every single (quick) / double (thorough) message-level fault (delete, duplicate, damage, truncate) at every position and phase, protocols 1/2/4, both directions, a role counts a file as done or reports success only if the destination equals the source; bound to the code by injecting byte-level faults (flip, delete, duplicate, insert, truncate) at first/middle/last byte of every protocol message of both directions of real transfers and evaluating Transfer's NoSilentCorruption/Fidelity formulas on each observed outcome.",
+         "Trusts TLC, the harness wire (fault injection by sender-stream offset), SHA-256; quick covers 4 base transfers (upload/download x base64/binary, protocol 4), thorough adds protocols 1-3, directory/archive mode, compression, double faults.",
+         "2/C02", "transfer"),
 }
 checks = []
 for p in props:
